@@ -27,7 +27,7 @@ theorem violatedEx_of_violated (s : Schema) (d : Document) (h : MergeViolated s 
 
 /-- the premises are met and the conclusion is not vacuous: on the F15 document the spec fails (so
     `MergeViolatedEx` holds) although the rule is silent; on a conflicting document both hold -/
-example : MergeViolatedEx exSchema f15Doc := violatedEx_of_violated _ _ f15_witness.1
+example : MergeViolatedEx exSchema f15Doc := violatedEx_of_violated _ _ f15_regression.1
 
 end Gql.C05
 
